@@ -313,7 +313,8 @@ static std::string fmt_case_text(FmtCase const& c)
 static void run_fmt(FmtCase& c)
 {
   c.time = ref_time(c.tsp, c.tsn);
-  if (!c.pre_given)
+  bool const default_decoy = !c.pre_given;
+  if (default_decoy)
   {
     c.pre = {c.tsn + 1000000007ull};
     c.pre_given = true;
@@ -323,7 +324,7 @@ static void run_fmt(FmtCase& c)
   if (c.pre.empty()) { ++g_stats["first_call_observed"]; }
   if (c.pre.empty() && c.tsn == 0) { ++g_stats["first_call_observed_ts0"]; }
   if (!c.pre.empty() && c.pre.back() == c.tsn) { ++g_stats["same_ts_as_previous_call"]; }
-  if (!c.pre.empty() && c.pre.back() > c.tsn) { ++g_stats["ts_lower_than_previous_call"]; }
+  if (!default_decoy && !c.pre.empty() && c.pre.back() > c.tsn) { ++g_stats["ts_lower_than_previous_call"]; }
   std::string obs;
   std::unique_ptr<PatternFormatter> pf;
   try
